@@ -92,7 +92,10 @@ OnCachedLine(C, m, t) ==
                          \cup V(t \notin m.cachedSaid, "CachedOnce")
                          \cup V(t \notin m.spawned \cup m.runSaid \cup m.skipSaid, "NotAlsoStarted")]
 
-StartOK(C, m, t) == \A d \in NTD(C, t) : Succeeded(C, m, d)
+(* In real-process traces (C.linesLate) output lines carry their ARRIVAL time, which may be arbitrarily later than   *)
+(* the moment they were printed, so the completion of a task without a process cannot be placed before a spawn;    *)
+(* the process dependencies reached through such tasks (NTD is transitive) are still required to have exited 0.    *)
+StartOK(C, m, t) == \A d \in NTD(C, t) : (C.linesLate /\ ~IsProc(C, d)) \/ Succeeded(C, m, d)
 
 OnRunningLine(C, m, t, k, n) ==
     [m EXCEPT !.runSaid = @ \cup {t}, !.nlines = @ + 1,
